@@ -53,7 +53,7 @@ func nextID(r *rand.Rand, w *mon.SessWorld) *spb.Uint128 {
 
 func TestCheck(t *testing.T) {
 	run := ev.Start(t, "C04", "exploration")
-	nScripts := run.Pick(4000, 120000)
+	nScripts := run.Pick(10000, 120000)
 	ev.Parallel(nScripts, ev.Workers(), func(i int) {
 		caseID := fmt.Sprintf("script-%d", i)
 		if !run.Want(caseID) {
